@@ -16,6 +16,7 @@ import (
 	"time"
 
 	simapp "github.com/KiraCore/sekai/app"
+	genutilcli "github.com/KiraCore/sekai/x/genutil/client/cli"
 	genutiltypes "github.com/KiraCore/sekai/x/genutil/types"
 	govtypes "github.com/KiraCore/sekai/x/gov/types"
 	"github.com/KiraCore/sekai/x/staking/client/cli"
@@ -127,6 +128,99 @@ func c16GentxClaim(r *Rec) {
 			}
 			if dup || og.LastIdentityRecordId < max {
 				r.Fail("C16/genesis-tool/counter-behind-record-ids", fmt.Sprintf("%s: the output has counter %d, largest record id %d, duplicate ids: %v - the next registration on a chain started from it takes the id of an existing record", label, og.LastIdentityRecordId, max, dup), nil)
+			}
+		}()
+	}
+}
+
+// c16HardForkTool: `new-genesis-from-exported` (x/genutil/client/cli) turns an exported state into the genesis file of the
+// next chain. The identity part passes through it as it is: records, requests and BOTH id counters (a file whose ids have
+// gaps keeps counters ahead of every id). Model: the identity state is untouched (`ident hardfork` answers with the input).
+func c16HardForkTool(r *Rec) {
+	r.Mark("new-genesis-from-exported")
+	type hcase struct {
+		recIds, reqIds   []uint64
+		recCtr, reqCtr uint64
+	}
+	cases := []hcase{{nil, nil, 0, 0}, {[]uint64{1, 2}, []uint64{1}, 2, 1}, {[]uint64{2}, []uint64{3}, 2, 3}, {[]uint64{1, 5}, nil, 5, 4}, {[]uint64{3}, []uint64{2, 7}, 9, 7}}
+	for ci, hc := range cases {
+		label := fmt.Sprintf("new-genesis-from-exported on record ids %v (counter %d), request ids %v (counter %d)", hc.recIds, hc.recCtr, hc.reqIds, hc.reqCtr)
+		func() {
+			defer func() {
+				if p := recover(); p != nil {
+					r.Count("hardfork-tool:panicked")
+					r.Notes = append(r.Notes, fmt.Sprintf("%s: %v", label, p))
+				}
+			}()
+			dir, err := os.MkdirTemp("", "verif-hardfork")
+			if err != nil {
+				return
+			}
+			defer os.RemoveAll(dir)
+			enc := simapp.MakeEncodingConfig()
+			cdc := enc.Marshaler
+			gs := simapp.ModuleBasics.DefaultGenesis(cdc)
+			var gg govtypes.GenesisState
+			cdc.MustUnmarshalJSON(gs[govtypes.ModuleName], &gg)
+			holder := func(i int) string { return sdk.AccAddress([]byte(fmt.Sprintf("holder_%d____________", i))[:20]).String() }
+			for i, id := range hc.recIds {
+				gg.IdentityRecords = append(gg.IdentityRecords, govtypes.IdentityRecord{Id: id, Address: holder(i), Key: "username", Value: fmt.Sprintf("u%d", i), Date: time.Unix(1700000000, 0).UTC(), Verifiers: []string{}})
+			}
+			for i, id := range hc.reqIds {
+				var rids []uint64
+				if len(hc.recIds) > 0 {
+					rids = []uint64{hc.recIds[0]}
+				}
+				gg.IdRecordsVerifyRequests = append(gg.IdRecordsVerifyRequests, govtypes.IdentityRecordsVerify{Id: id, Address: holder(0), Verifier: holder(9 + i), RecordIds: rids, Tip: sdk.NewInt64Coin("ukex", 300), LastRecordEditDate: time.Unix(1700000000, 0).UTC()})
+			}
+			gg.LastIdentityRecordId, gg.LastIdRecordVerifyRequestId = hc.recCtr, hc.reqCtr
+			gs[govtypes.ModuleName] = cdc.MustMarshalJSON(&gg)
+			bz, _ := json.Marshal(gs)
+			doc := tmtypes.GenesisDoc{ChainID: "verif-fork", GenesisTime: time.Unix(1700000100, 0).UTC(), AppState: bz}
+			if err := doc.ValidateAndComplete(); err != nil {
+				r.Count("hardfork-tool:genesis-doc-invalid")
+				return
+			}
+			in, out := filepath.Join(dir, "exported.json"), filepath.Join(dir, "new.json")
+			if err := doc.SaveAs(in); err != nil {
+				return
+			}
+			cctx := client.Context{}.WithCodec(cdc)
+			cmd := genutilcli.GetNewGenesisFromExportedCmd(simapp.ModuleBasics, enc.TxConfig)
+			cmd.SetArgs([]string{in, out})
+			cmd.SilenceUsage, cmd.SilenceErrors = true, true
+			if err := cmd.ExecuteContext(context.WithValue(context.Background(), client.ClientContextKey, &cctx)); err != nil {
+				r.Count("hardfork-tool:command-failed")
+				r.Notes = append(r.Notes, label+": "+err.Error())
+				return
+			}
+			nd, err := tmtypes.GenesisDocFromFile(out)
+			if err != nil {
+				r.Count("hardfork-tool:output-unreadable")
+				return
+			}
+			var ns map[string]json.RawMessage
+			if err := json.Unmarshal(nd.AppState, &ns); err != nil {
+				return
+			}
+			var og govtypes.GenesisState
+			cdc.MustUnmarshalJSON(ns[govtypes.ModuleName], &og)
+			r.Count("hardfork-tool:ran")
+			r.Case(fmt.Sprintf("hardfork-tool/%d", ci), true)
+			r.Op(fmt.Sprintf("ident hardfork %d %d %d %d", len(hc.recIds), hc.recCtr, len(hc.reqIds), hc.reqCtr), fmt.Sprintf("records=%d counter=%d requests=%d counter=%d", len(og.IdentityRecords), og.LastIdentityRecordId, len(og.IdRecordsVerifyRequests), og.LastIdRecordVerifyRequestId))
+			var maxRec, maxReq uint64
+			for _, x := range og.IdentityRecords {
+				if x.Id > maxRec {
+					maxRec = x.Id
+				}
+			}
+			for _, x := range og.IdRecordsVerifyRequests {
+				if x.Id > maxReq {
+					maxReq = x.Id
+				}
+			}
+			if og.LastIdentityRecordId < maxRec || og.LastIdRecordVerifyRequestId < maxReq {
+				r.Fail("C16/genesis-tool/counter-behind-record-ids", fmt.Sprintf("%s: the output has record counter %d (largest id %d) and request counter %d (largest id %d) - the next registration or request on the forked chain takes the id of an existing one", label, og.LastIdentityRecordId, maxRec, og.LastIdRecordVerifyRequestId, maxReq), nil)
 			}
 		}()
 	}
